@@ -115,6 +115,10 @@ CHECKS = {
          "Repair enabled: for (d,p) up to (4,2), all damage subsets of size 1..p x damage kinds; after one successful read every shard file must be byte-identical to the originally encoded shard and every subset of p further removed shards must still read back exactly.",
          "Trusted: as C25.",
          "7/C26"),
+ "C37": (EXPL, "deterministic simulation + trace checking: a monitor on the simulated disk turns registry block writes into handle transitions; traces of concurrent committers (seeded schedules) and of commits crashed at every registry write are checked against the node-version protocol",
+         "Implementation traces (task, old handle image, new handle image for every registry slot written) from 2-3 concurrent committers over 1-3 nodes and from commits crashed before/after every registry block write followed by recovery. Checked: at most one successfully committing installer per (node, version); a flip bumps the version by one and activates a complete node blob; after recovery the crashed commit's handles are all post-commit or all pre-commit.",
+         "Trusted: simulator, the block decoder (sop's handle marshaler), the engine's commit outcomes. The abstract protocol itself is NOT model-checked here (that half of the property's quantifier belongs to another technique); only implementation traces are checked against its invariants. Leftover reserved ids with an expired timestamp are not judged (reclaimable by design; see C09/C11).",
+         "7/C37"),
  "C38": (EXPL, "deterministic simulation: seeded programs that modify returned reference-typed values in place and never write them back, with warm, concurrent (seeded schedules) and cold readers; last-Update-wins oracle",
          "Five reference-carrying value types x four value placements x seeded programs of read / in-place modification (element, map, pointee writes, assignment through Item.Value) / optional unrelated Update / commit, rollback or drop, judged by re-reads in the same transaction, later and concurrent transactions of the same simulated process, and a restarted (cold) process: every read must return the last value passed to Update.",
          "Trusted: simulator, the harness' own deep copies. On the current tree every warm class is a recorded finding (values are shared through Node.CopyTo and the L1 cache), so for warm sharing the check can only report a change of class; what it can still detect are modifications that become durable WITHOUT any later committing writer (class .../no-writer-after, clean on the unchanged tree), lost values and panics.",
